@@ -87,6 +87,7 @@ pub struct Probes {
     pub foreign_guards_dropped: u64,
     pub guards_taken_apart: u64,
     pub take_apart_refused: u64,
+    pub bombs_armed: u64,
     pub lock_refs_kept: u64,
     pub lock_ref_refused: u64,
 }
@@ -483,6 +484,27 @@ impl<'r, 'a> St<'r, 'a> {
                 }
                 // performed by the caller of the scoped call once it has returned
                 BodyOp::EscapeData(_) => {}
+                BodyOp::ArmBomb => {
+                    if !ctx.acq.api.is_scoped() || self.in_unwind {
+                        continue;
+                    }
+                    // if the closure is let go of while its locks are still held, this is a panic
+                    // during the hold; if afterwards (as it is today), nothing is poisoned: uncertain
+                    let spec = &self.r.world.spec;
+                    let ids: Vec<PoisonId> = spec.poison_ids(&spec.targets[ctx.acq.target], if ctx.private { None } else { Some(ctx.acq.target) });
+                    {
+                        let mut m = self.r.model.lock().unwrap();
+                        for p in ids {
+                            if let PoisonId::Private(_) = p {
+                                self.private_poison.entry(p).or_default().may = true;
+                            } else {
+                                m.poison.entry(p).or_default().may = true;
+                            }
+                        }
+                    }
+                    self.probe(|p| p.bombs_armed += 1);
+                    crate::api::BOMB_ARMED.with(|b| b.set(true));
+                }
                 BodyOp::KeepLockRef(i) => {
                     if *i >= ctx.flat.len() || emptied || ctx.acq.api.is_scoped() {
                         continue;
@@ -1887,6 +1909,7 @@ impl<'r, 'a> Th<'r, 'a> {
         let faults0 = s.faults_fired_by_me();
         self.st.panic_thrown = false;
         let r = catch_unwind(AssertUnwindSafe(|| self.exec(step)));
+        crate::api::BOMB_ARMED.with(|b| b.set(false));
         match r {
             Err(p) => {
                 let recs = s.api_unwind_to(depth);
